@@ -47,13 +47,16 @@ pub struct Cfg {
     pub sizes: Option<Vec<usize>>,
     /// highly compressible payloads (a batch may then decompress to several MiB while its frame is tiny)
     pub compressible: bool,
+    /// payloads that are themselves compressed streams (an application forwarding data it compressed already), of
+    /// every algorithm, plus short records that merely start with a compressed-stream magic number
+    pub precompressed: bool,
     pub id: u64,
 }
 
 impl Cfg {
     fn json(&self) -> Value {
         json!({"codec": self.codec, "compression": self.compression, "batching": self.batch.map(|(s, i)| json!({"size": s, "interval_ms": i})),
-               "messages": self.count, "payload_bytes": self.payload, "payload_sizes": self.sizes, "compressible_payloads": self.compressible})
+               "messages": self.count, "payload_bytes": self.payload, "payload_sizes": self.sizes, "compressible_payloads": self.compressible, "payloads_are_compressed_streams": self.precompressed})
     }
 }
 
@@ -61,6 +64,10 @@ pub trait ItemKind: Clone + PartialEq + Debug + Send + Unpin + 'static {
     fn make(i: u64, size: usize, rng: &mut Rng) -> Self;
     /// same, but highly repetitive content
     fn make_compressible(i: u64, size: usize) -> Self;
+    /// the item whose *encoding* is exactly these bytes, for codecs that can express that (bytes codec)
+    fn from_raw(_bytes: Vec<u8>) -> Option<Self> {
+        None
+    }
     fn sentinel(k: u64) -> Self;
     fn is_sentinel(&self) -> Option<u64>;
     fn brief(&self) -> String;
@@ -96,6 +103,9 @@ impl ItemKind for String {
 }
 
 impl ItemKind for Vec<u8> {
+    fn from_raw(bytes: Vec<u8>) -> Option<Self> {
+        Some(bytes)
+    }
     fn make(i: u64, size: usize, rng: &mut Rng) -> Self {
         let mut v = format!("m{:06}|", i).into_bytes();
         if size > v.len() {
@@ -253,6 +263,20 @@ where
     // subscriber's flow-control window is what lets finish() complete (reading only afterwards would deadlock the harness)
     let items: Vec<T> = (0..cfg.count)
         .map(|i| {
+            if cfg.precompressed {
+                let algo = ["lz4", "zstd", "gzip", "zlib", "brotli-generic"][i % 5];
+                use selium::std::traits::compression::Compress;
+                let inner = format!("precompressed item {} {}", i, "lorem ipsum ".repeat(40 + i * 13)).into_bytes();
+                let mut raw = compression_pair(algo).0.compress(bytes::Bytes::from(inner)).map(|b| b.to_vec()).unwrap_or_default();
+                if i % 7 == 6 {
+                    // a short incompressible record that merely starts with the magic number
+                    raw.truncate(4);
+                    raw.extend(rng.bytes(44));
+                }
+                if let Some(t) = T::from_raw(raw) {
+                    return t;
+                }
+            }
             let size = cfg.sizes.as_ref().map_or(cfg.payload, |v| v[i]);
             if cfg.compressible { T::make_compressible(i as u64, size) } else { T::make(i as u64, size, &mut rng) }
         })
@@ -758,7 +782,7 @@ fn configs(tier: &str, rng: &mut Rng) -> Vec<Cfg> {
     let mut id = 0u64;
     let mut push = |codec: &'static str, comp: Option<&str>, batch: Option<(u32, u64)>, count: usize, payload: usize, v: &mut Vec<Cfg>| {
         id += 1;
-        v.push(Cfg { codec, compression: comp.map(|s| s.to_string()), batch, count, payload, sizes: None, compressible: false, id });
+        v.push(Cfg { codec, compression: comp.map(|s| s.to_string()), batch, count, payload, sizes: None, compressible: false, precompressed: false, id });
     };
     // systematic core: every codec × every compression, unbatched and batched with a partial tail
     for codec in codecs {
@@ -849,6 +873,16 @@ fn configs(tier: &str, rng: &mut Rng) -> Vec<Cfg> {
         let comp = if k % 4 == 1 { Some(*rng.pick(&["zstd", "lz4", "gzip"])) } else { None };
         push(codec, comp, Some((*rng.pick(&[2u32, 3, 4, 10, 100]), *rng.pick(&[3_600_000u64, 3_600_000, 40]))), n, 0, &mut v);
         v.last_mut().unwrap().sizes = Some(sizes);
+    }
+    // payloads that are compressed streams themselves, through every compressor, unbatched and batched
+    for (k, comp) in comps.iter().enumerate() {
+        if comp.is_none() || (!thorough && k % 2 == 0 && k > 5) {
+            continue;
+        }
+        push("bytes", *comp, None, 8, 0, &mut v);
+        v.last_mut().unwrap().precompressed = true;
+        push("bytes", *comp, Some((3, 3_600_000)), 8, 0, &mut v);
+        v.last_mut().unwrap().precompressed = true;
     }
     // incompressible batches whose encoding lies at, or a little under, the frame limit, with every compressor: the
     // compressed form of incompressible data is a few bytes to a few hundred bytes *larger* than its input
@@ -959,7 +993,7 @@ pub fn run(rep: &mut StageReport, tier: &str, seed: u64) {
             (Some((100, 3_600_000)), Some("lz4"), 0),
         ];
         for (i, (batch, comp, before)) in dups.into_iter().enumerate() {
-            let cfg = Cfg { codec: "string", compression: comp.map(|s| s.to_string()), batch, count: before + 6, payload: 5, sizes: None, compressible: false, id: 90_000 + i as u64 };
+            let cfg = Cfg { codec: "string", compression: comp.map(|s| s.to_string()), batch, count: before + 6, payload: 5, sizes: None, compressible: false, precompressed: false, id: 90_000 + i as u64 };
             let r = match tokio::time::timeout(Duration::from_secs(90), run_duplicate(addr.clone(), certs.clone(), 90_000 + i as u64, batch, comp, before)).await {
                 Ok(o) => o,
                 Err(_) => Outcome::Inconclusive("watchdog: duplicate scenario did not finish within 90 s".into()),
@@ -967,7 +1001,7 @@ pub fn run(rep: &mut StageReport, tier: &str, seed: u64) {
             out.push((cfg, r));
         }
         for (i, (comp, before, after)) in [(None, 2usize, 1usize), (None, 5, 3), (Some("lz4"), 3, 2), (None, 0, 2), (None, 40, 0)].into_iter().enumerate() {
-            let cfg = Cfg { codec: "string", compression: comp.map(|s: &str| s.to_string()), batch: None, count: before + after + 1, payload: 5, sizes: None, compressible: false, id: 91_000 + i as u64 };
+            let cfg = Cfg { codec: "string", compression: comp.map(|s: &str| s.to_string()), batch: None, count: before + after + 1, payload: 5, sizes: None, compressible: false, precompressed: false, id: 91_000 + i as u64 };
             let r = match tokio::time::timeout(Duration::from_secs(90), run_feed_oversize(addr.clone(), certs.clone(), 91_000 + i as u64, comp, before, after)).await {
                 Ok(o) => o,
                 Err(_) => Outcome::Inconclusive("watchdog: feed/oversize scenario did not finish within 90 s".into()),
@@ -976,7 +1010,7 @@ pub fn run(rep: &mut StageReport, tier: &str, seed: u64) {
         }
         {
             // a subscriber that silently re-registered after a connection loss, then idles: the items accepted next
-            let cfg = Cfg { codec: "string", compression: None, batch: None, count: 2, payload: 2, sizes: None, compressible: false, id: 93_000 };
+            let cfg = Cfg { codec: "string", compression: None, batch: None, count: 2, payload: 2, sizes: None, compressible: false, precompressed: false, id: 93_000 };
             let r = match tokio::time::timeout(Duration::from_secs(120), super::c12::idle_after_recovery(&certs, 2)).await {
                 Ok(Ok(n)) => Outcome::Held { delivered: n as usize },
                 Ok(Err((sig, d))) if sig == "INCONCLUSIVE" => Outcome::Inconclusive(d),
@@ -987,7 +1021,7 @@ pub fn run(rep: &mut StageReport, tier: &str, seed: u64) {
         }
         {
             let rounds = if tier == "thorough" { 200 } else { 25 };
-            let cfg = Cfg { codec: "string", compression: None, batch: None, count: 5 * rounds, payload: 10, sizes: None, compressible: false, id: 92_000 };
+            let cfg = Cfg { codec: "string", compression: None, batch: None, count: 5 * rounds, payload: 10, sizes: None, compressible: false, precompressed: false, id: 92_000 };
             let r = match tokio::time::timeout(Duration::from_secs(400), run_concurrent_open(addr.clone(), certs.clone(), rounds, 1)).await {
                 Ok(o) => o,
                 Err(_) => Outcome::Inconclusive("watchdog: concurrent-open scenario did not finish within 400 s".into()),
